@@ -28,7 +28,14 @@ theorem pt_undo (a : PyFloat) (s k : Rat) :
 
 theorem shiftScale1_do (s k : Rat) : shiftScale1 s k .doIt = fun v => (v - s) / k := rfl
 theorem shiftScale1_undo (s k : Rat) : shiftScale1 s k .undo = fun v => v * k + s := rfl
-theorem minmax1_do (lo hi : Rat) : minmax1 lo hi .doIt = fun v => (v - lo) / (hi - lo) := rfl
+theorem minmax1_do (lo hi : Rat) (h : hi ≠ lo) : minmax1 lo hi .doIt = fun v => (v - lo) / (hi - lo) := by
+  funext v; simp only [minmax1, if_neg h]
+theorem minmax1_do_null (lo : Rat) : minmax1 lo lo .doIt = fun _ => 0 := by
+  funext v; simp only [minmax1, if_true]
+
+theorem pt_null (a : PyFloat) (s : Rat) :
+    F.mul (F.sub a (some s)) (F.ofInt (0 : Int)) = Option.map (fun _ => (0 : Rat)) a := by
+  cases a <;> simp
 theorem minmax1_undo (lo hi : Rat) : minmax1 lo hi .undo = fun v => v * (hi - lo) + lo := rfl
 
 theorem shift_and_scale_do (vals : List (Option Rat)) (shift : Option Rat) (scale : Rat) (hs : scale ≠ 0) :
@@ -47,12 +54,37 @@ theorem shift_and_scale_badmode (vals : List (Option Rat)) (shift : Option Rat) 
   unfold Gen.shift_and_scale
   cases shift <;> simp [h1, h2]
 
-theorem minmax_scale_do (vals : List (Option Rat)) (lo hi : Option Rat)
-    (hne : hi.getD (nanmax vals) - lo.getD (nanmin vals) ≠ 0) :
+theorem core_do (vals : List (Option Rat)) (lo hi : Rat) :
+    (if (decide (hi = lo)) then
+      (Except.ok (List.map (fun v => F.mul v (F.ofInt (0 : Int))) (List.map (fun v => F.sub v (F.ofRat lo)) vals)) : Except AmpyErr _)
+    else
+      (Except.ok (List.map (fun v => F.divz v (F.ofRat (hi - lo))) (List.map (fun v => F.sub v (F.ofRat lo)) vals)))) =
+    Except.ok (vals.map (Option.map (minmax1 lo hi .doIt))) := by
+  by_cases h : hi = lo
+  · subst h
+    simp only [decide_true, if_true, List.map_map, minmax1_do_null]
+    congr 1
+    apply List.map_congr_left
+    intro v _
+    cases v <;> simp
+  · have hne : hi - lo ≠ 0 := by
+      intro e
+      apply h
+      have := Rat.sub_eq_add_neg hi lo ▸ e
+      grind
+    simp only [h, decide_false, Bool.false_eq_true, if_false, List.map_map, minmax1_do _ _ h]
+    congr 1
+    apply List.map_congr_left
+    intro v _
+    cases v <;> simp [hne]
+
+/-- Mode `do`, every range: a null range maps everything onto 0 (the source says so since the repair of F6), otherwise
+`(v - lo) / (hi - lo)` — no side condition left. -/
+theorem minmax_scale_do (vals : List (Option Rat)) (lo hi : Option Rat) :
     Gen.minmax_scale nanmax nanmin vals lo hi "do" = .ok (minmaxScale vals lo hi .doIt) := by
   unfold Gen.minmax_scale minmaxScale
-  cases lo <;> cases hi <;> simp only [Option.getD_none, Option.getD_some] at hne ⊢ <;>
-    simp [pt_do _ _ _ hne, minmax1_do]
+  have hd : decide (("do" : String) = "do") = true := by decide
+  cases lo <;> cases hi <;> simp only [Option.getD_none, Option.getD_some, hd, if_true] <;> exact core_do vals _ _
 
 theorem minmax_scale_undo (vals : List (Option Rat)) (lo hi : Option Rat) :
     Gen.minmax_scale nanmax nanmin vals lo hi "undo" = .ok (minmaxScale vals lo hi .undo) := by
